@@ -32,7 +32,7 @@ Definition judge_c13 (c : c13case) : verdict :=
   end.
 
 (* ---- C10: composition ---- *)
-From Sidetree Require Import Sidetree.Rfc6902 Sidetree.Builders.
+From Sidetree Require Import Sidetree.Rfc6902 Sidetree.Builders Sidetree.Constructors.
 
 (* the documented semantics: per-action functions, RFC 6902 for ietf-json-patch *)
 Definition spec_apply_patch (doc : obj) (pj : json) : option obj :=
@@ -160,7 +160,8 @@ Inductive c14case :=
 | mk_c14doc (doc : obj) (in_class : bool) (impl_patches : option (list json)) (impl_applied : option obj)
             (all_valid : bool) (bytes_roundtrip : bool)
 | mk_c14bytes (v : json) (impl_ok expect : bool)
-| mk_c14ctor (patch : json) (oracle : url_table) (impl_valid : bool).
+| mk_c14ctor (patch : json) (oracle : url_table) (impl_valid : bool)
+| mk_c14new (action : string) (arg : json) (oracle : url_table) (impl_patch : option json) (impl_valid : bool) (rt_same : bool).
 
 Definition list_json_equiv (a b : list json) : bool := json_equiv (JArr a) (JArr b).
 
@@ -202,4 +203,19 @@ Definition judge_c14 (c : c14case) : verdict :=
   | mk_c14ctor p t iv =>
       if negb iv then SpecFail 10
       else if negb (validate_with t p) then Mismatch 11 else Pass
+  | mk_c14new an v t impl iv rt_same =>
+      if negb rt_same then SpecFail 15 else
+      match action_of_string an with
+      | None => OutOfDomain 8
+      | Some a =>
+          let m := new_patch a v in
+          if negb (opt_json_equiv' m impl) then Mismatch 12
+          else match m with
+               | None => Pass
+               | Some p =>
+                   if negb (Bool.eqb (validate_with t p) iv) then Mismatch 13
+                   else if andb (input_valid (uri_ok_of t) (url_norm_of t) a v) (negb iv) then SpecFail 14
+                   else Pass
+               end
+      end
   end.
